@@ -33,6 +33,7 @@ class FnContract:
         self.external_body = False
         self.used = False
         self.no_canary = False
+        self.default_core = []
         self.src = None
 
 
@@ -141,6 +142,13 @@ def parse_contracts(paths):
                     sink = None
                 elif d == "no_canary":
                     cur_fn.no_canary = True
+                    sink = None
+                elif d == "default":
+                    # @default core=C08,C16 : unlabelled clauses / proof assertions of this fn count as core for these properties
+                    for tok in arg.split():
+                        k, _, v = tok.partition("=")
+                        if k == "core":
+                            cur_fn.default_core = [x for x in v.split(",") if x]
                     sink = None
                 elif d == "loop":
                     cur_loop = cur_fn.loops[arg] = LoopContract(arg)
@@ -302,6 +310,7 @@ def assemble(unit_cfg, src="/repo/src"):
         side.setdefault("sections", []).append({"name": p, "line_start": base, "line_end": out.line - 1})
 
     canary_specs = []
+    side["default_core"] = {k: v.default_core for k, v in fnc.items() if v.default_core}
     for it in ex["items"]:
         for rw in it["rewrites"]:
             side["rewrites"][rw["rule"]] = side["rewrites"].get(rw["rule"], 0) + rw["count"]
